@@ -7,6 +7,7 @@ import (
 	"os/exec"
 	"path/filepath"
 	"regexp"
+	"strings"
 	"sync"
 	"testing"
 	"time"
@@ -73,6 +74,57 @@ func checkC39d(c c39Case) (o vstat.Outcome) {
 	if !ok {
 		o.Discard = true
 		return
+	}
+	// the key file through `bifrost util read-private` / `derive-public`: the printed identity is the stored one, a
+	// file that holds no private key is an error (never an identity made up on the spot)
+	{
+		uctx, ucancel := context.WithTimeout(context.Background(), 60*time.Second)
+		cmd := exec.CommandContext(uctx, bin, "util", "read-private", "--file", path)
+		cmd.Dir = dir
+		var stdout, stderr bytes.Buffer
+		cmd.Stdout, cmd.Stderr = &stdout, &stderr
+		rerr := cmd.Run()
+		timedOut := uctx.Err() != nil
+		ucancel()
+		if timedOut {
+			o.Discard = true
+			return
+		}
+		printed := strings.TrimSpace(stdout.String())
+		switch {
+		case expect == "same":
+			if rerr != nil || printed != gen.PeerID(c.Key).String() {
+				o.V = vstat.Viol("cli-util-valid-key-file", "file state %q: `util read-private` printed %q (err %v), the stored key is %s", c.State, printed, rerr, gen.PeerID(c.Key))
+				return
+			}
+		default:
+			if rerr == nil {
+				o.V = vstat.Viol("cli-util-invents-identity", "file state %q: `util read-private` succeeded and printed %q although the file holds no private key; stderr: %s", c.State, printed, strings.TrimSpace(stderr.String()))
+				return
+			}
+		}
+		outPub := filepath.Join(dir, "derived-pub.pem")
+		dctx, dcancel := context.WithTimeout(context.Background(), 60*time.Second)
+		dcmd := exec.CommandContext(dctx, bin, "util", "derive-public", "--file", path, "--out", outPub)
+		dcmd.Dir = dir
+		derr := dcmd.Run()
+		timedOut = dctx.Err() != nil
+		dcancel()
+		if timedOut {
+			o.Discard = true
+			return
+		}
+		pubDat, _ := os.ReadFile(outPub)
+		if expect == "same" {
+			pk, perr := keypem.ParsePubKeyPem(pubDat)
+			if derr != nil || perr != nil || pk == nil || !pk.Equals(gen.Key(c.Key).GetPublic()) {
+				o.V = vstat.Viol("cli-util-valid-key-file", "file state %q: `util derive-public` did not write the stored key's public half (err %v)", c.State, derr)
+				return
+			}
+		} else if derr == nil || len(pubDat) != 0 {
+			o.V = vstat.Viol("cli-util-invents-identity", "file state %q: `util derive-public` succeeded (wrote %d bytes) although the file holds no private key", c.State, len(pubDat))
+			return
+		}
 	}
 	var first peer.ID
 	for run := 0; run < c.Calls; run++ {
@@ -172,7 +224,7 @@ func checkC39d(c c39Case) (o vstat.Outcome) {
 
 var specC39d = vstat.Spec[c39Case]{
 	Property: "C39",
-	Rule: "the same file states as TestC39, loaded by the daemon entry point: the bifrost binary built from the tree under test is started 1-2 times as `bifrost daemon --node-priv PATH --config <missing> --write-config` and stopped once it ends or has written its configuration; " +
+	Rule: "the same file states as TestC39, loaded by the command line: `bifrost util read-private` / `derive-public` on the file (the stored identity or an error, never another identity), then the daemon entry point: the bifrost binary built from the tree under test is started 1-2 times as `bifrost daemon --node-priv PATH --config <missing> --write-config` and stopped once it ends or has written its configuration; " +
 		"oracle: the identity it announces is the one stored at PATH afterwards; states that cannot be loaded end the process before any identity is used; a valid file runs as the stored identity; a missing file is created and a second start runs as the same identity; non-trivial = any state but a plain valid file",
 	Assumptions: []string{"a process that neither ends nor writes its configuration within 60 s is discarded, not judged"},
 	Gen:         genC39d,
